@@ -226,7 +226,9 @@ void oracle_delivery(World& W)
     }
   }
 
-  if (is_prop("C05") && precondition && W.grace_ns > 0)
+  // (C20 too: "shrinking ... without losing or reordering statements" -- the shrink-chain operations put a statement
+  // behind several never-used buffers while another thread logs a later one)
+  if ((is_prop("C05") || is_prop("C20")) && precondition && W.grace_ns > 0)
   {
     uint64_t last_ts = 0;
     std::string last_id;
